@@ -441,9 +441,15 @@ def check_polarity(ctx):
         for r in finals:
             for c in ast.walk(r.value):
                 if isinstance(c, ast.Call) and isinstance(c.func, ast.Attribute) and c.func.attr == pred and pred != "falsifiedByInner":
-                    recv = dotted(c.func.value)
-                    args = [dotted(a) for a in c.args]
-                    if recv in sampled and all(a in sampled for a in args):
+                    # an operand is sampled when it is a local bound to a lookup in `sample`, or such a lookup itself
+                    sample_par = fn.args.args[1].arg if len(fn.args.args) >= 2 else "sample"
+
+                    def is_sampled(e):
+                        if isinstance(e, ast.Name):
+                            return e.id in sampled
+                        return isinstance(e, ast.Subscript) and isinstance(e.value, ast.Name) and (e.value.id == sample_par or e.value.id in sampled)
+
+                    if is_sampled(c.func.value) and all(is_sampled(a) for a in c.args):
                         ctx.ok(R, c, f"{cname}: `{pred}` is applied to the sampled objects")
                     else:
                         ctx.finding(R, c, f"{cname} unsampled operands of {pred}", f"{cname}: `{unparse(c)}` does not use the sampled versions of its operands")
@@ -576,8 +582,13 @@ def check_coverage(ctx):
                     ok = False
         else:
             ok = ok and ttxt == want_tests
-        for t, pol in lib.guard_tests(c, lp):
+        # nothing may skip the creation for some instances: no enclosing test inside the loop, no continue / break / return
+        # (a guard that raises rejects the whole scenario and skips nothing)
+        for t, pol in lib.enclosing_tests(c, lp):
             ok = False
+        for s_ in walk_local(lp):
+            if isinstance(s_, (ast.Continue, ast.Break, ast.Return)):
+                ok = False
         if ok:
             ctx.ok(R, c, f"{cls} created for every {kind} instance")
         else:
